@@ -208,7 +208,9 @@ def write_project(desc, path, order=None):
                 os.makedirs(os.path.dirname(p), exist_ok=True)
                 with open(p, "w") as f:
                     f.write(content)
-        with open(os.path.join(path, sub, name + ".yaml"), "w") as f:
+        fn = os.path.join(path, sub, *name.split("::")) + ".yaml"     # a::b lives in a/b.yaml
+        os.makedirs(os.path.dirname(fn), exist_ok=True)
+        with open(fn, "w") as f:
             yaml.safe_dump(r, f, default_flow_style=False, sort_keys=(order is None))
     with open(os.path.join(path, "config.yaml"), "w") as f:
         yaml.safe_dump(desc["config"], f)
